@@ -13,12 +13,19 @@ RECURSIVE RunChunks(_, _, _)
 RunChunks(s, q, n) == IF n = 0 \/ q = <<>> THEN [s |-> s, q |-> q] ELSE RunChunks(Run(s, q[1]), Tail(q), n - 1)
 
 \* "loop-stale-placement": every text cell is right and the only difference
-\* is placements left on the terminal that the last frame does not contain
+\* is placements left on the terminal that the last frame does not contain,
+\* none of which the renderer still knew at the most recent drop (it had
+\* replaced them in frames that were dropped: known finding
+\* C01-stale-image-after-frame-drop).  A stale placement the renderer DID know
+\* at the most recent drop was erased by the forced clear - if it is still
+\* there, that erase was lost: "loop-stale-placement-after-clear".
 Check(i, st) ==
   IF st.has /\ st.q = <<>> /\ ~Ambiguous(st.last) /\ ~Matches(st.s, st.last)
   THEN LET cellsOk == Matches([st.s EXCEPT !.imgs = Placements(st.last)], st.last)
            extraOnly == Placements(st.last) \subseteq st.s.imgs
-       IN <<[step |-> i, why |-> IF cellsOk /\ extraOnly THEN "loop-stale-placement" ELSE "loop-absolute", amb |-> st.dropped]>>
+           stale == st.s.imgs \ Placements(st.last)
+       IN <<[step |-> i, why |-> IF cellsOk /\ extraOnly THEN (IF stale \cap st.cleared = {} THEN "loop-stale-placement" ELSE "loop-stale-placement-after-clear")
+                                 ELSE "loop-absolute", amb |-> st.dropped]>>
   ELSE <<>>
 
 RECURSIVE WalkL(_, _, _, _)
@@ -40,7 +47,8 @@ WalkL(alpha, ev, i, st) ==
        IN Check(i, st1) \o WalkL(alpha, ev, i + 1, st1)
     ELSE IF e.e = "start" THEN WalkL(alpha, ev, i + 1, [st EXCEPT !.started = TRUE])
     ELSE IF e.e = "drop" THEN
-       WalkL(alpha, ev, i + 1, [st EXCEPT !.q = IF st.started /\ st.q # <<>> THEN <<st.q[1]>> ELSE <<>>, !.dropped = TRUE])
+       WalkL(alpha, ev, i + 1, [st EXCEPT !.q = IF st.started /\ st.q # <<>> THEN <<st.q[1]>> ELSE <<>>, !.dropped = TRUE,
+                                          !.cleared = IF st.has THEN Placements(st.last) ELSE {}])
     ELSE IF e.e = "resize" THEN
        \* a resized terminal shows unknown text until repainted; a frame is shown again only after the next one
        WalkL(alpha, ev, i + 1, [st EXCEPT !.s = GarbageText(@), !.has = FALSE])
@@ -48,7 +56,7 @@ WalkL(alpha, ev, i, st) ==
 
 JudgeL(r) ==
   IF r.panic # "" THEN <<[step |-> 0, why |-> "panic", amb |-> FALSE]>>
-  ELSE WalkL(r.alpha, r.ev, 1, [s |-> BlankScreen, q |-> <<>>, started |-> FALSE, last |-> DefGrid, has |-> FALSE, dropped |-> FALSE])
+  ELSE WalkL(r.alpha, r.ev, 1, [s |-> BlankScreen, q |-> <<>>, started |-> FALSE, last |-> DefGrid, has |-> FALSE, dropped |-> FALSE, cleared |-> {}])
 
 VerdictsL == FlattenSeq([l \in 1..Len(Rec) |->
                 LET v == JudgeL(Rec[l]) IN [j \in 1..Len(v) |-> [id |-> Rec[l].id, step |-> v[j].step, why |-> v[j].why, amb |-> v[j].amb]]])
